@@ -410,3 +410,33 @@ def c03_8(ctx):
             ctx.fail(h, top[0] if top else h.node, '%s looks at its policy when `%s`, expected whenever there is at least one index' % (name, U(top[0].test) if top else '?'))
         elif not else_of(top[0]) or const(else_of(top[0])[0].value, 'X') is not None:
             ctx.fail(h, top[0], '%s of nothing is not None' % name)
+
+
+@obligation('C03.9', 'PATH (symbolic summary) table', '_pandas:_list',
+            'every timeseries found ANYWHERE inside nested list/dict arguments enters the common index: the flattening helper must recurse into the members of a list and into the values of a dict, at every depth',
+            axioms=())
+def c03_9(ctx):
+    f = ctx.repo.fn('_pandas:_list')
+    v = f.params[0]
+    seen = set()
+    for p in sym_paths(f):
+        if p.term != 'return':
+            continue
+        ctx.count(1, f.where(p.node))
+        if p.holds('isinstance(%s, list)' % v, True):
+            seen.add('list')
+            ok = isinstance(p.value, ast.Call) and call_name(p.value) == 'sum' and len(p.value.args) == 2 and N(p.value.args[1]) == '[]' and isinstance(p.value.args[0], ast.ListComp) \
+                and call_name(p.value.args[0].elt) == '_list' and N(p.value.args[0].generators[0].iter) == v and U(p.value.args[0].elt.args[0]) == U(p.value.args[0].generators[0].target)
+            if not ok:
+                ctx.fail(f, p.node, 'a list is flattened as `%s`, expected sum([_list(member) for member in values], [])' % p.text())
+        elif p.holds('isinstance(%s, dict)' % v, True):
+            seen.add('dict')
+            if p.text() not in (NS('_list(list(%s.values()))' % v), NS('sum([_list(x) for x in %s.values()], [])' % v)):
+                ctx.fail(f, p.node, 'a dict is flattened as `%s`: its values are not flattened recursively, so timeseries inside a dict of containers never reach the common index' % p.text(),
+                         witness="df_index({'px': s1, 'signals': {'fast': s2}}, 'ij')")
+        else:
+            seen.add('leaf')
+            if p.text() != '[%s]' % v:
+                ctx.fail(f, p.node, 'a leaf is returned as `%s`, expected [values]' % p.text())
+    if not ctx.findings and seen != {'list', 'dict', 'leaf'}:
+        ctx.fail(f, f.node, '_list no longer distinguishes lists, dicts and leaves')
